@@ -127,6 +127,9 @@ pub struct ScriptedReader<'a> {
     pub fail_once_at: Option<(usize, io::ErrorKind)>,
     /// number of artificial piece ends (Step::End) reported so far
     pub ends: Rc<Cell<u64>>,
+    /// the end of the stream is reported once (an empty read); a read issued after that fails with this kind (a closed
+    /// connection object answers NotConnected; nothing is promised about reads after EOF)
+    pub after_eof: Option<io::ErrorKind>,
 }
 
 impl<'a> ScriptedReader<'a> {
@@ -150,6 +153,7 @@ impl<'a> ScriptedReader<'a> {
             last_transient: Rc::new(Cell::new(io::ErrorKind::Other)),
             fail_once_at: None,
             ends: Rc::new(Cell::new(0)),
+            after_eof: None,
         }
     }
     pub fn with_fault(mut self, pos: usize, kind: io::ErrorKind) -> Self {
@@ -218,6 +222,9 @@ impl<'a> AsyncRead for ScriptedReader<'a> {
         let mut n = me.data.len() - me.pos;
         if n == 0 {
             me.reads_at_end += 1;
+            if let (Some(k), true) = (me.after_eof, me.reads_at_end > 1 && cap > 0) {
+                return Poll::Ready(Err(io::Error::new(k, "read after the end of the stream was reported")));
+            }
             if me.eof_as_error && cap > 0 {
                 if me.keep_log {
                     me.log.push(ReadRec { pos: me.pos, cap, got: Some(usize::MAX) });
